@@ -638,7 +638,9 @@ where
                         if c <  cur_backup {
                             // c is preferred over current backup
                             // check if it is not the same route as 'best'
-                            if best.as_ref().map(|t| &t.1) != Some(&c) {
+                            if best.as_ref().map(|t| t.1.borrow().inner())
+                                != Some(c.borrow().inner())
+                            {
                                 backup = Some((idx, c));
                                 continue;
                             }
